@@ -42,7 +42,7 @@ inductive Val where
   | list (items : List Val)               -- ListValue
   | map (pairs : List (Str × Val))        -- InlineMap
   | dict (pairs : List (Str × Val))       -- raw Python dict: the one nested level of META produced by the parser
-  | py (j : JVal)                         -- raw, un-normalised request value (only the CLI loop stores these)
+  | py (j : JVal)                         -- a raw Python list/dict object put there by an API caller: foreign, printed with str()
   deriving Repr, Inhabited
 
 inductive Node where
